@@ -188,6 +188,42 @@ func runC13(c *eng.Ctx) {
 	ruleLockPairing(c, "server/partition.go")
 	c.Floor(30)
 
+	// ---- R13.8 the group's registry lives on the partition leader: a member may only subscribe there
+	c.Rule("R13.8", "K1")
+	if fn := c.Fn("server.(*apiServer).SubscribeInternal"); fn != nil {
+		subs := eng.CallsIn(fn, "server.apiServer.subscribe")
+		onLeader := eng.CmpEdges(fn, eng.Call(0, "server.partition.GetLeader"), eng.LoadNamed("ServerID", nil), eng.EQ)
+		noGroup := eng.CmpEdges(fn, eng.AnyV, eng.StrConst(""), eng.EQ)
+		// keep only the comparison of the request's group id
+		var ng []eng.Edge
+		for _, e := range noGroup {
+			iff := e.From.Instrs[len(e.From.Instrs)-1].(*ssa.If)
+			cond, _ := eng.CondPolarity(iff.Cond)
+			if bo, ok := cond.(*ssa.BinOp); ok {
+				isGroup := func(v ssa.Value) bool {
+					if ph, ok := v.(*ssa.Phi); ok {
+						for _, pe := range ph.Edges {
+							if eng.LoadNamed("GroupId", nil)(pe) {
+								return true
+							}
+						}
+					}
+					return eng.LoadNamed("GroupId", nil)(v)
+				}
+				if isGroup(bo.X) || isGroup(bo.Y) {
+					ng = append(ng, e)
+				}
+			}
+		}
+		if len(subs) != 1 {
+			c.Unresolved("a.subscribe call in SubscribeInternal")
+		} else {
+			g, w := eng.GuardedBy(fn, subs[0].(ssa.Instruction), append(append([]eng.Edge{}, onLeader...), ng...))
+			c.Check(g && len(onLeader) > 0 && len(ng) > 0, "a consumer-group subscription is only set up on the partition leader", c.Pos(subs[0].(ssa.Instruction)), "a.subscribe is reached only when this server leads the partition or the request carries no group", "a group member can subscribe on a follower (path "+w.String()+"): the follower's own group registry is empty, so no epoch check and no cancellation happens there and two members of the group consume the partition at the same time")
+		}
+	}
+	c.Floor(1)
+
 	// ---- R13.7 check, replace and register are one critical section
 	c.Rule("R13.7", "K4")
 	if fn := c.Fn("server.(*partition).Subscribe"); fn != nil {
